@@ -2006,3 +2006,5 @@ mod tests {
 
 #[cfg(feature = "verif-hooks")]
 pub mod verif_c14;
+#[cfg(feature = "verif-hooks")]
+pub mod verif_c03;
